@@ -48,6 +48,7 @@ def check(case) -> Outcome:
     crossing = [0]
     oversize = [0]
     bound_fail = []
+    belief_fail = []
     try:
         nodes = [('S', sim.server)] + sorted(sim.managers.items())
 
@@ -65,7 +66,29 @@ def check(case) -> Outcome:
                     un = sum(c for _, c in cache[idx[0] + 1:]) if idx else -1
                 if un > 0:
                     crossing[0] += 1
-                return orig(conn, new_idle, receipt)
+                ret = orig(conn, new_idle, receipt)
+                # the read receipt exists so that the boss's idle belief is
+                # right (handle_waiting docstring): for a directly managed
+                # worker it must now be 1 exactly when every task message
+                # sent to it so far had been taken in when it said WAITING
+                wname = getattr(conn, 'peer', None)
+                if not e.is_manager and wname in sim.workers and \
+                        sim.waiting_snaps[wname] and not belief_fail:
+                    k = sim.waiting_snaps[wname].popleft()
+                    me = conn.owner
+                    K = sum(1 for (a, b, nm, _) in sim.msg_log
+                            if a == me and b == wname
+                            and nm in ('SUBMIT', 'SUBMIT_BATCH'))
+                    want = 1 if K == k else 0
+                    if e.num_idle_workers != want:
+                        belief_fail.append((
+                            'idle_belief_wrong_after_waiting',
+                            f'{me} believes {wname} idle='
+                            f'{e.num_idle_workers} after WAITING(receipt='
+                            f'{receipt}); it had sent {K} task messages, '
+                            f'the worker had taken in {k} when it sent '
+                            f'WAITING'))
+                return ret
             node.handle_waiting = wrapped
 
         def wrap_schedule(node):
@@ -120,7 +143,7 @@ def check(case) -> Outcome:
             sig, det = sc.client_error(e)
             out.fail(sig, det)
             return out
-        for sig, det in bound_fail[:1]:
+        for sig, det in bound_fail[:1] + belief_fail[:1]:
             out.fail(sig, det)
         d = P.value_matches(P.expected(spec), res[1]['res'])
         if d is not None:
